@@ -171,7 +171,7 @@ Proof.
   destruct (l1 <=? 55) eqn:E1; destruct (l2 <=? 55) eqn:E2;
     [apply N.leb_le in E1, E2 | apply N.leb_le in E1; apply N.leb_gt in E2
      | apply N.leb_gt in E1; apply N.leb_le in E2 | apply N.leb_gt in E1, E2];
-    cbn [app]; intro H; inversion H as [[Hh Ht]]; clear H.
+    cbn [app]; intro H; injection H as Hh Ht.
   - apply (f_equal nb) in Hh. rewrite !nb_byte_of_N in Hh.
     rewrite !N.mod_small in Hh by lia. split; [lia | exact Ht].
   - exfalso. destruct (len_bytes_spec l2) as (_ & L & _); [lia|].
@@ -204,7 +204,12 @@ Lemma rlp_split_string_encode b rest :
 Proof.
   intro HL. unfold rlp_string.
   destruct b as [|x [|y b]].
-  - (* empty *) cbn. reflexivity.
+  - (* empty *)
+    change (rlp_header 128 (N.of_nat (length (@nil byte))) ++ [] ++ rest) with (x80 :: rest).
+    unfold rlp_split_string. change (nb x80) with 128.
+    change (128 <? 128) with false. change (128 <? 184) with true. change (128 - 128) with 0.
+    cbn [N.to_nat firstn skipn].
+    replace (N.of_nat (length rest) <? 0) with false by (symmetry; apply N.ltb_ge; lia). reflexivity.
   - (* one byte *)
     destruct (nb x <? 128) eqn:E.
     + cbn [app rlp_split_string]. rewrite E. reflexivity.
